@@ -20,6 +20,7 @@ func registerExtra(e *Engine) {
 	registerEth(e)
 	registerRegexp(e)
 	registerABI(e)
+	registerABIJSON(e)
 	registerCrypto(e)
 }
 
